@@ -1,4 +1,4 @@
-//go:build !sio_deadlock && !verif
+//go:build !sio_deadlock
 
 package sync
 
